@@ -25,6 +25,7 @@ HARNESS = {
     '/repo/internal/db/zz_c03_timetravel_test.go': f'{V}/harness/db/zz_c03_timetravel_test.go',
     '/repo/internal/db/zz_c07_index_test.go': f'{V}/harness/db/zz_c07_index_test.go',
     '/repo/internal/db/zz_c07_counter_index_test.go': f'{V}/harness/db/zz_c07_counter_index_test.go',
+    '/repo/internal/db/zz_c07_array_composite_test.go': f'{V}/harness/db/zz_c07_array_composite_test.go',
     '/repo/internal/db/zz_c09_relation_test.go': f'{V}/harness/db/zz_c09_relation_test.go',
     '/repo/internal/db/zz_c14_restart_test.go': f'{V}/harness/db/zz_c14_restart_test.go',
     '/repo/internal/db/zz_c13_partition_test.go': f'{V}/harness/db/zz_c13_partition_test.go',
@@ -195,6 +196,16 @@ if prop == 'C07':
             for q in v['problems']:
                 if q.startswith('C07'):
                     probs.append({'history': v['history'], 'step': -1, 'what': q})
+    # the filter laws also compare every condition on a collection without indexes, with an index on every
+    # field, and with a composite index whose second field is an array (documents identified by a key field)
+    p4, res4 = gotest('^TestGovcC08FilterLaws$', {}, 900)
+    if res4 is None:
+        probs.append({'history': 'filter-law harness', 'step': 0, 'what': 'the filter-law harness did not run: ' + (p4.stdout + p4.stderr)[-600:]})
+    else:
+        for q in res4.get('problems') or []:
+            if q['law'] in ('with the indexes = without the indexes', 'no request fails or panics') or q['schema'] != 'no index':
+                probs.append({'history': 'filter laws, collection ' + q['schema'], 'step': 0, 'what': q['law'] + ': ' + q['what']})
+        bound += '; every atomic and compound condition of the filter-law harness (%d evaluations) returns the same documents on a collection without indexes, with an index on every field, and with a composite index (name, tags[])' % res4['cases']
     if p2.returncode != 0:
         probs.append({'history': 'replica a: create(name a, age 1, email x@x); delete; deliver the head to replica b (same indexed schema)', 'step': 2,
                       'what': 'merge of create+delete of an unseen document into an indexed collection: ' + ' '.join(l.strip() for l in p2.stdout.splitlines() if 'C07' in l)[:600]})
